@@ -351,6 +351,8 @@ def run_mc(module, cfg=None, workers=8, timeout=1800, xmx="8g", cache=True, extr
     if extra_args and "-simulate" in extra_args:
         ok = ("Error:" not in out) and ("violated" not in out) and ("The number of states generated" in out or "states generated" in out or "Finished in" in out)
     violated = re.findall(r"Invariant (\w+) is violated|property (\w+) was violated", out)
+    if "Temporal properties were violated" in out:
+        violated.append(("temporal_property", ""))
     if not ok and not violated:
         raise ToolError(f"TLC failed on {module}:\n{out[-3000:]}")
     st, gen = parse_tlc_stats(out)
